@@ -260,8 +260,8 @@ parse_script(const char *txt, struct script *sc)
     return true;
 }
 
-struct ssrc { struct script sc; const unsigned char *stream; size_t len, pos; };
-struct ssnk { struct script sc; unsigned char *got; size_t cap, n; };
+struct ssrc { struct script sc; const unsigned char *stream; size_t len, pos; ByteBuffer bb; bool buffered; };
+struct ssnk { struct script sc; unsigned char *got; size_t cap, n; ByteBuffer bb; bool buffered; };
 
 /* next step of a script: returns <0 error / 0 zero / limit (SIZE_MAX when the script is used up) */
 static long long
@@ -321,16 +321,38 @@ ssnk_octet(void *drv, unsigned char c)
     return (int)ssnk_chunk(drv, &c, 1);
 }
 
+/* kind "b": the library's own buffer-backed endpoints (endpoints/buffer.c) instead of a scripted driver - the
+ * source reads the stream out of a ByteBuffer, the sink "b:<cap>" fills a ByteBuffer of that capacity.  The
+ * script of the operation line then describes the same behaviour for the model (computed by the generator). */
 static void
 mk_source(Source *src, const char *kind, struct ssrc *d)
 {
-    if (kind[0] == 'o') octet_source_init(src, ssrc_octet, d); else chunk_source_init(src, ssrc_chunk, d);
+    if (kind[0] == 'b') {
+        d->buffered = true;
+        d->bb = (ByteBuffer){ .data = (unsigned char *)d->stream, .size = d->len, .used = d->len, .offset = 0 };
+        source_from_buffer(src, &d->bb);
+    } else if (kind[0] == 'o') octet_source_init(src, ssrc_octet, d);
+    else chunk_source_init(src, ssrc_chunk, d);
+}
+
+static void
+ep_sync(struct ssrc *sd, struct ssnk *kd)
+{
+    if (sd && sd->buffered) sd->pos = sd->bb.offset;
+    if (kd && kd->buffered) { kd->got = kd->bb.data; kd->n = kd->bb.used; }
 }
 
 static void
 mk_sink(Sink *snk, const char *kind, struct ssnk *d)
 {
-    if (kind[0] == 'o') octet_sink_init(snk, ssnk_octet, d); else chunk_sink_init(snk, ssnk_chunk, d);
+    if (kind[0] == 'b' && kind[1] == ':') {
+        size_t cap = strtoull(kind + 2, NULL, 10);
+        d->buffered = true;
+        d->bb = (ByteBuffer){ .data = malloc(cap ? cap : 1), .size = cap, .used = 0, .offset = 0 };
+        d->got = d->bb.data;
+        sink_to_buffer(snk, &d->bb);
+    } else if (kind[0] == 'o') octet_sink_init(snk, ssnk_octet, d);
+    else chunk_sink_init(snk, ssnk_chunk, d);
 }
 
 static bool
@@ -369,6 +391,7 @@ ep_op(int argc, char **argv)
         memset(buf, 0xee, n ? n : 1);
         Source src; mk_source(&src, argv[1], &d);
         ssize_t rc = op[6] == 'm' ? source_get_chunk_atmost(&src, buf, n) : source_get_chunk(&src, buf, n);
+        ep_sync(&d, NULL);
         print_rc_strict(rc);
         printf(" data="); print_hex(buf, rc > 0 ? (size_t)rc : 0);
         printf(" consumed=%zu ## ", d.pos);
@@ -381,6 +404,7 @@ ep_op(int argc, char **argv)
         if (!data || !parse_script(argv[2], &d.sc)) { printf("bad-op"); return; }
         Sink snk; mk_sink(&snk, argv[1], &d);
         ssize_t rc = op[6] == 'm' ? sink_put_chunk_atmost(&snk, data, n) : sink_put_chunk(&snk, data, n);
+        ep_sync(NULL, &d);
         for (int view = 0; view < 2; view++) {
             print_rc_strict(rc);
             if (rc >= 0) { printf(" got="); print_hex(view ? data : d.got, view ? (size_t)rc : d.n); }
@@ -451,6 +475,7 @@ ep_op(int argc, char **argv)
         else if (strcmp(fn, "n_aux") == 0) { rc = sts_n_aux(&src, &snk, &aux, n); rewound = true; }
         else if (strcmp(fn, "drain_aux") == 0) { rc = sts_drain_aux(&src, &snk, &aux); rewound = true; }
         else { printf("bad-op"); return; }
+        ep_sync(&sd, &kd);
         bool clean = true;
         for (size_t i = 0; i < asize; i++) {
             bool inside = (aoff <= i && i < aused) || (rewound && aused >= aoff && i < aused - aoff);
